@@ -55,6 +55,10 @@ def check_design(module: str, params: dict, invariants=None, alphabet='MCAlphabe
 
 def build_case(scen: dict, params: dict, pretty='listing') -> tuple[dict, dict]:
     files, pos = render_prog(scen['prog'], join_labels=bool(params.get('join_labels')))
+    if params.get('directive_tabs'):
+        # a tab instead of the blank after every preprocessor directive keyword (kind of blank carries no meaning)
+        import re
+        files = {k: re.sub(r'(?m)^(#\w+) ', lambda m: m.group(1) + '\t', v) for k, v in files.items()}
     case = {'config': isa_for(params), 'files': files, 'main': 'main.asm', 'start': params.get('win_start', 0),
             'end': params.get('win_end'), 'fill': params.get('fill', 0), 'pretty': pretty,
             'include_dirs': [], 'timeout': 10.0, 'verbose': params.get('verbose', 0)}
